@@ -478,7 +478,7 @@ def run(ctx):
                     "first_events": ev[:6], "a_call": next((e for e in ev if e["ev"] == "call"), None)})
     ctx.cov["rule"] = ("evaluations = events recorded on real callbacks; non-trivial: %d creates reused a freed "
                        "closure, up to %d callbacks alive at once" % (reused, maxlive))
-    ctx.cov["exhaustive"] = False
+    ctx.cov["exhaustive"] = not quick        # thorough: every transition of the explored graph is replayed
     ctx.assumptions += ["dropping the last reference frees the callback immediately (reference counting); sessions "
                         "with reference cycles are validated against the ideal only",
                         "the worker process creates no other callbacks than the recorded ones"]
